@@ -110,9 +110,13 @@ def make_generic(rng, i):
         # field types are bracketed by \x01 .. \x02 so that the compile pool can pass them through `$t:ty` macro fragments
         if shape == "unit":
             return ""
+        # (likewise \x03 .. \x04 around the names of named fields, \x05 .. \x06 around the visibility of a field without attributes:
+        #  through `$f:ident` / `$p:vis` fragments the first token of such a field comes from the macro invocation)
+        def v(a):
+            return ("\x05%s\x06" % vis.strip() + " ") if (vis and not a.strip()) else vis
         if shape == "tuple":
-            return "(%s)" % ", ".join("%s%s\x01%s\x02" % (a, vis, ty) for a, _, ty in fs)
-        return " { %s }" % ", ".join("%s%s%s: \x01%s\x02" % (a, vis, n, ty) for a, n, ty in fs)
+            return "(%s)" % ", ".join("%s%s\x01%s\x02" % (a, v(a), ty) for a, _, ty in fs)
+        return " { %s }" % ", ".join("%s%s\x03%s\x04: \x01%s\x02" % (a, v(a), n, ty) for a, n, ty in fs)
 
     used = set()
 
@@ -299,21 +303,25 @@ def make_access(rng, i):
 
 
 def plain_types(src):
-    return src.replace("\x01", "").replace("\x02", "")
+    return re.sub("[\x01-\x06]", "", src)
 
 
 def through_macro(src, i):
     """the same definition as the output of a macro_rules! macro whose `$t:ty` fragments are the field types (the derive
     then sees each of them inside a None-delimited group)"""
-    tys = []
+    frs = []
+    full = i % 2 == 1          # also the field names and the visibility of attribute-less fields
 
     def sub(m):
-        tys.append(m.group(1))
-        return "$t%d" % (len(tys) - 1)
-    body = re.sub("\x01(.*?)\x02", sub, src)
-    if not tys:
-        return src
-    return "macro_rules! mg_%d { (%s) => {\n%s\n} }\nmg_%d!(%s);" % (i, ", ".join("$t%d:ty" % k for k in range(len(tys))), body, i, ", ".join(tys))
+        spec = {"\x01": "ty", "\x03": "ident", "\x05": "vis"}[m.group(1)]
+        if spec != "ty" and not full:
+            return m.group(2)
+        frs.append((spec, m.group(2)))
+        return "$x%d" % (len(frs) - 1)
+    body = re.sub("([\x01\x03\x05])(.*?)[\x02\x04\x06]", sub, src)
+    if not frs:
+        return plain_types(src)
+    return "macro_rules! mg_%d { (%s) => {\n%s\n} }\nmg_%d!(%s);" % (i, ", ".join("$x%d:%s" % (k, sp) for k, (sp, _) in enumerate(frs)), body, i, ", ".join(t for _, t in frs))
 
 
 # An Into target written with a lifetime parameter of the type: the handler normalises every reference target to `&'static`
